@@ -508,6 +508,10 @@ snarf_rrule(const char *s, size_t z)
 				break;
 			case KEY_INTER:
 				rr.inter = (unsigned int)tmp;
+				if (UNLIKELY((long int)rr.inter != tmp)) {
+					/* doesn't fit, and might come out as 0 */
+					goto bogus;
+				}
 				break;
 			}
 			break;
